@@ -148,12 +148,39 @@ def own_params(B):
 def is_async_fn(f, p):
     return f.hir[p]['body'].get('k') == 'Closure' and 'async fn body' in (f.hir[p]['body'].get('ty') or '')
 
-def effects(o, allowed=()):
-    """What a path does besides the allowed calls: stores, spawned tasks, calls into the crate."""
+def builds_a_value_only(f, cal, _busy=()):
+    """The crate function `cal` takes no argument and, on every path, does nothing but put a value together: no store, no task, no
+    call other than of functions of the same kind (`Default::default()` of the primitive types and of Option is a constant).  Calling
+    it is not an effect (`LdapConnSettings::new()` as the value left behind by a mem::replace).  Decided on its body, on every run."""
+    cache = f.__dict__.setdefault('_c14_value_only', {})
+    if cal in cache:
+        return cache[cal]
+    it = f.items.get(cal) or {}
+    if cal in _busy or cal not in f.hir or it.get('inputs') or it.get('asyncness'):
+        return False
+    try:
+        outs, _I = sem.paths(f, hirq.Body(f, f.hir[cal]), summaries=[sem.primitive_defaults], combinators=True)
+    except absx.TooManyPaths:
+        return False
+    ok = bool(outs)
+    for o in outs:
+        ok = ok and o.kind in ('val', 'ret')
+        for e in o.st.ev:
+            if e[0] in SKIP_EVENTS:
+                continue
+            ok = ok and e[0] == 'call' and not e[2] and builds_a_value_only(f, e[1], _busy + (cal,))
+    if not _busy:
+        cache[cal] = ok
+    return ok
+
+def effects(o, allowed=(), f=None):
+    """What a path does besides the allowed calls: stores, spawned tasks, calls into the crate (other than of a function that only
+    puts a value together, when the facts are given)."""
     ex = [absx.fmt(e[1])[:40] for e in o.st.ev if e[0] in ('store', 'store-unknown')]
     ex += ['spawn'] * len([e for e in o.st.ev if e[0] == 'spawn' and 'spawn' not in allowed])
     ex += [c[1] for c in sem.calls(o, lambda c: (c.startswith('ldap3::') or c.startswith('<ldap3::')) and c not in allowed and not hirq.is_transparent(c)
-                                           and not FROM_IMPL.match(c))]      # the conversion `?` applies, spelled out
+                                           and not FROM_IMPL.match(c))      # the conversion `?` applies, spelled out
+           if not (f is not None and not c[2] and builds_a_value_only(f, c[1]))]
     return ex
 
 
@@ -569,7 +596,7 @@ def check_sync_from_url_with_settings(ctx, f):
         if o.kind not in ('val', 'ret'):
             bad['delegates'].append('a path of the constructor does not return (%s)' % o.kind); continue
         ev, v = o.st.ev, o.val
-        extra = effects(o, allowed=(dp, 'spawn', AC + 'drive'))
+        extra = effects(o, allowed=(dp, 'spawn', AC + 'drive'), f=f)
         # creating the future of drive() is inert; it has to be the future the spawned task awaits (checked below on the success path)
         spawned_awaits = [e2[1] for e in ev if e[0] == 'spawn' for k_, v_, sev in e[1] for e2 in sev if e2[0] == 'await']
         extra += [c[1] for c in sem.calls(o, lambda c: c == AC + 'drive') if call_term(c) not in spawned_awaits]
